@@ -365,3 +365,76 @@ def vararg_after_call_cases():
         ss.append(p.emit([p.str("p"), p.call(p.id("pcall"), [p.id("f")] + [p.num(20 + i) for i in range(nva)])]))
         out.append((p, p.block(ss)))
     return out
+
+
+def short_return_cases():
+    """a callee that returns the first k of its m live locals (the registers above the last returned value hold live
+    values) to callers that want k+1 .. k+3 values in every kind of context: the missing ones are nil"""
+    out = []
+    for m in (1, 2, 3, 5):
+        for k in range(0, m + 1):
+            for how in ("locals", "params", "varargs-then-locals"):
+                p = Prog()
+                names = ["a%d" % i for i in range(1, m + 1)]
+                if how == "locals":
+                    f = p.func([], p.block([p.local(names, [p.num(10 * i) for i in range(1, m + 1)]), p.ret([p.id(n) for n in names[:k]])]))
+                    args = lambda: []
+                elif how == "params":
+                    f = p.func(names, p.block([p.ret([p.id(n) for n in names[:k]])]))
+                    args = lambda: [p.num(10 * i) for i in range(1, m + 1)]
+                else:
+                    f = p.func([], p.block([p.local(names, [p.dots()]), p.local(["live"], [p.str("live")]), p.ret([p.id(n) for n in names[:k]])]), va=True, ud=True)
+                    args = lambda: [p.num(10 * i) for i in range(1, m + 1)]
+                call = lambda: p.call(p.id("f"), args())
+                ss = [p.localfunction("f", f), p.local(["t"], [p.table([])])]
+                for want in (k + 1, k + 2, k + 3):
+                    xs = ["x%d" % i for i in range(1, want + 1)]
+                    ss.append(p.do(p.block([p.local(xs, [call()]), p.emit([p.str("local"), p.num(want)] + [p.id(x) for x in xs])])))
+                    ss.append(p.do(p.block([p.local(xs, [p.str("old")] * want), p.assign([p.id(x) for x in xs], [call()]), p.emit([p.str("assign"), p.num(want)] + [p.id(x) for x in xs])])))
+                    ss.append(p.assign([p.field(p.id("t"), x) for x in xs], [call()]))
+                    ss.append(p.emit([p.str("fields"), p.num(want)] + [p.field(p.id("t"), x) for x in xs]))
+                    ss.append(p.do(p.block([p.local(["first"] + xs, [p.str("first"), call()]), p.emit([p.str("after-first"), p.num(want)] + [p.id(x) for x in xs])])))
+                ss.append(p.emit([p.str("open"), call()]))
+                ss.append(p.emit([p.str("count"), p.call(p.id("select"), [p.str("#"), call()])]))
+                ss.append(p.emit([p.str("paren"), p.paren(call()), p.str("end")]))
+                ss.append(p.local(["c1", "c2"], [p.table([("p", call())]), p.table([("p", call()), ("p", p.str("z"))])]))
+                ss.append(p.emit([p.str("ctor")] + [p.index(p.id("c1"), p.num(i)) for i in range(1, m + 2)] + [p.str("|")] + [p.index(p.id("c2"), p.num(i)) for i in range(1, 4)]))
+                ss.append(p.localfunction("g", p.func(["p1", "p2", "p3"], p.block([p.ret([p.id("p1"), p.id("p2"), p.id("p3")])]))))
+                ss.append(p.emit([p.str("as-args"), p.call(p.id("g"), [call()]), p.str("|"), p.call(p.id("g"), [p.str("h"), call()])]))
+                ss.append(p.localfunction("tail", p.func([], p.block([p.ret([call()])]))))
+                ss.append(p.do(p.block([p.local(["y1", "y2", "y3", "y4", "y5", "y6", "y7"], [p.call(p.id("tail"), [])]),
+                                        p.emit([p.str("through-tail")] + [p.id("y%d" % i) for i in range(1, 8)])])))
+                out.append((p, p.block(ss)))
+    return out
+
+
+def xpcall_surplus_cases():
+    """xpcall(f, handler, surplus...): Lua 5.1 drops everything behind the handler (f is called without arguments); the
+    caller gets true and exactly f's results, or false and the handler's first result"""
+    out = []
+    for nsur, open_ in itertools.product((0, 1, 3), ("no", "call0", "call2", "dots")):
+        for fails in (False, True):
+            p = Prog()
+            body = [p.emit([p.str("f got"), p.call(p.id("select"), [p.str("#"), p.dots()]), p.dots()])]
+            body.append(p.callstat(p.call(p.id("error"), [p.table([])])) if fails else p.ret([p.str("r1"), p.str("r2")]))
+            if fails:
+                body = body[:1] + [p.callstat(p.call(p.id("error"), [p.str("boom"), p.num(0)]))]
+            ss = [p.localfunction("f", p.func([], p.block(body), va=True, ud=True)),
+                  p.localfunction("h", p.func(["m"], p.block([p.emit([p.str("h got"), p.id("m"), p.call(p.id("select"), [p.str("#"), p.dots()])]), p.ret([p.str("handled"), p.str("second")])]), va=True, ud=True)),
+                  p.localfunction("none", p.func([], p.block([]))),
+                  p.localfunction("two", p.func([], p.block([p.ret([p.str("t1"), p.str("t2")])])))]
+            extra = [p.str("s%d" % i) for i in range(nsur)]
+            if open_ == "call0":
+                extra.append(p.call(p.id("none"), []))
+            elif open_ == "call2":
+                extra.append(p.call(p.id("two"), []))
+            call = lambda ex: p.call(p.id("xpcall"), [p.id("f"), p.id("h")] + ex)
+            if open_ == "dots":
+                w = p.func([], p.block([p.ret([call(extra + [p.dots()])])]), va=True, ud=True)
+                ss.append(p.emit([p.str("result"), p.call(p.paren(w), [p.str("v1"), p.str("v2")])]))
+                ss.append(p.emit([p.str("result-empty"), p.call(p.paren(w), [])]))
+            else:
+                ss.append(p.emit([p.str("result"), call(extra)]))
+            ss.append(p.emit([p.str("count"), p.call(p.id("select"), [p.str("#"), call([p.str("s%d" % i) for i in range(nsur)])])]))
+            out.append((p, p.block(ss)))
+    return out
